@@ -317,6 +317,7 @@ def run(ctx):
         seqs = sequences(cls, ctx.quick)
         if ctx.quick:
             seqs = [s for s in seqs if len(s) == 1] + [s for s in seqs if len(s) == 2][::4]
+            ctx.cap_hit("%s: two-box diagrams every 4th (all single boxes complete)" % cls)
         ctx.note("sizes", "%s: %d diagrams" % (cls, len(seqs)))
         for s in seqs:
             for var in ("x", "y"):
